@@ -144,13 +144,15 @@ func runDecodeCase(c decodeCase) *verdict {
 		})
 		done <- r
 	}()
+	watchdog := time.NewTimer(40 * time.Second)
+	defer watchdog.Stop()
 	select {
 	case r := <-done:
 		if isPanic(r.err) {
 			return &verdict{"panic", fmt.Sprintf("%s decode panicked: %v", c.Mode, r.err)}
 		}
 		return r.v
-	case <-time.After(40 * time.Second):
+	case <-watchdog.C:
 		return &verdict{"hang", fmt.Sprintf("%s decode of %d bytes did not return within 40s", c.Mode, len(data))}
 	}
 }
